@@ -231,8 +231,8 @@ def replayer(bld):
                 pos = (X + (0.5 if frac else 0.0), float(Y)) if axis else (float(Y), X + (0.5 if frac else 0.0))
                 spec = {'what': {'rflin': 'rflin', 'rfsin': 'rfsin', 'drift': 'drift'}[c['what']], 'n': n, 'nb': 1, 'it': c['it'], 'seed': 7, 'data': data, 'pos': list(pos)}
                 # first with the model's displacements put into the map (swapOffset), then - if that shows nothing - with the constructor's own field
-                off = [0.0] * n
-                for r, v in c['off'].items(): off[int(r)] = float(v)
+                off = list(native_run(bld, spec, 'c15')['force'][:n])      # the constructor's own field ...
+                for r, v in c['off'].items(): off[int(r)] = float(v)      # ... with the counterexample's rows put in (every other row keeps its value, as in the model)
                 spec['set_off'] = off
                 if c['what'] == 'drift': spec.update({'slip': [0.11, 0.013, 0.0017], 'E0': 1.3e9})
                 if c['what'] == 'rfsin': spec.update({'revpart': 0.02, 'V': 1.4e6, 'fRF': 4.99e8, 'V0': 4.5e5})
